@@ -92,7 +92,7 @@ def main():
         {"name": "vcheck", "path": "/verif/harness", "serves_properties": sorted(CHECKS), "kind_free_text": "Rust binary: proptest 1.11 TestRunner campaigns sharded over 16 threads + exhaustive enumerations, independent reference models (SemVer order, npm range desugaring, interval algebra) as oracles; path dependency on /repo so every run rebuilds the working tree"},
       ],
       "checks": checks,
-      "notes": "All checks: exit 0 held / 1 VIOLATION line + replay file / 2 inconclusive (build failure, oracle self-test). Known findings: /verif/known_findings.json.",
+      "notes": "All checks: exit 0 held / 1 VIOLATION line + replay file / 2 inconclusive (build failure, oracle self-test failed, printed ranges unreadable for the model, or - for checks other than C06 - the code under test hung or killed the process: that is C06's property and C06 reports it as a violation). Known findings: /verif/known_findings.json (open: C01 wildcard-misplaced, C01 lt-major-only, C12 hyphenless-at-max-length, C13 bound-component-exceeds-max).",
       "not_applicable": [{"property_id": p, "reason": NOT_BUILT} for p in ALL if p not in CHECKS],
     }
     json.dump(m, open("/verif/MANIFEST.json", "w"), indent=1)
